@@ -19,6 +19,14 @@ def main(argv: List[str]) -> int:
     run = Run("C04", "proof", argv)
     live = Live()
     mm = MetaModel.load()
+    from contracts import genhelpers as gh
+    from lib.helpers_verify import verify_field_validator, verify_helper_items
+    from lib.smtrun import SmtStats
+
+    stats = SmtStats()
+    w_, i_, items_ = gh.python_special_items()
+    verify_helper_items(run, stats, w_, i_, items_)
+    verify_field_validator(run, stats)
     res = check_classes(live, mm)
     e = check_enums(live, mm)
     a = check_aliases(live, mm)
@@ -59,10 +67,11 @@ def main(argv: List[str]) -> int:
     )
     return run.finish(
         {
-            "obligations": n1 + n2 + n3 + n4,
-            "discharged": d1 + d2 + d3 + d4,
+            "obligations": n1 + n2 + n3 + n4 + stats.obligations,
+            "discharged": d1 + d2 + d3 + d4 + stats.discharged,
+            "smt": stats.coverage(),
             "checker_cmd": "bin/check C04 (exhaustive evaluation of the class/enum/alias tables against generator/lsp.json)",
-            "trusted_base": ["oracle/metamodel.py", "attrs.fields / cattrs overrides as read from the live objects", "typing equality"],
+            "trusted_base": ["z3/cvc5 + pyvc (generator decision helpers)", "oracle/metamodel.py", "attrs.fields / cattrs overrides as read from the live objects", "typing equality"],
             "by_facet": {**res.obligations, **e.obligations, **a.obligations, "no-extra-class": n4},
             "exhaustive": True,
             "samples": res.samples[:6] + e.samples[:2],
